@@ -22,7 +22,24 @@ returns exactly the announced `byte_size` (announced = returned = written, by `e
 theorem from_owned_exact (s : Shape) (v : Val) (cap : Nat) (hwf : WF s v = true)
     (hcap : size s v ≤ cap) : fromOwned s v cap = .ok (encode s v, size s v) := by
   simp only [WF, Bool.and_eq_true] at hwf
-  simp [fromOwned, hwf.2, Nat.not_lt.2 hcap]
+  simp [fromOwned, fitsP_all s v hwf.2, hwf.2, Nat.not_lt.2 hcap]
+
+/-- A `List`/`Set`/`Map`/`UnsizedString` whose element count does not fit its length type makes
+`from_owned` return `ToPrimitiveError` (it used to panic: fixed in /repo) — provided the buffer
+holds the `p` bytes written before that list is reached; with a shorter buffer an earlier advance
+fails first (`AdvanceError`). In particular `serialize_type` / `TestByteSet::new`, which allocate
+`byte_size` bytes, report `ToPrimitiveError`. -/
+theorem from_owned_overflow (s : Shape) (v : Val) (cap p : Nat) (hp : unfitPos s v = some p) :
+    fromOwned s v cap = if p ≤ cap then .error .toPrimitive else .error .advancer := by
+  simp [fromOwned, hp]
+
+example (es : List (List Nat)) (h : 256 ≤ es.length) :
+    unfitPos (.list (.pod 1) 1) (.seq es) = some 0 := by
+  simp [unfitPos]; omega
+example (es : List (List Nat)) (h : 256 ≤ es.length) :
+    unfitPos (.ulist (.list (.pod 1) 1)) (.useq [.seq [[1]], .seq es]) = some 22 := by
+  have : ¬ es.length < 256 := by omega
+  simp [unfitPos, firstUnfit, size, Fixed.size, this]
 
 /-- `get_ptr` on the serialized bytes (followed by anything) covers exactly the announced size. -/
 theorem extent_encode (s : Shape) (v : Val) (rest : List Nat) (hok : s.ok = true)
@@ -120,5 +137,22 @@ theorem test_buffer_owned (s : Shape) (v : Val) (hok : s.ok = true) (hwf : WF s 
   rw [List.append_nil] at hdec
   simp only [testBufferOwned]
   rw [List.take_left' hlen, hdec]
+
+/-- After `data_mut()?.set_from_owned(v2)` (any resize, grow or shrink) the helper's
+`underlying_data()` is exactly the serialization of `v2` and `owned()` returns `v2`: both read the
+CURRENT length, not the length the buffer was created with. -/
+theorem test_buffer_after_set (s : Shape) (v2 : Val) (buf : List Nat × Nat) (hok : s.ok = true)
+    (hwf : WF s v2 = true) :
+    ∃ buf', testBufferSet s buf v2 = .ok buf' ∧ testBufferData buf' = encode s v2
+      ∧ testBufferOwned s buf' = .ok v2 := by
+  have hfo := from_owned_exact s v2 (size s v2) hwf (Nat.le_refl _)
+  have hlen : (encode s v2).length = size s v2 := by
+    simp only [WF, Bool.and_eq_true] at hwf; exact encode_size s v2 hwf.1
+  refine ⟨(encode s v2 ++ List.replicate testSlack 0, size s v2), by simp [testBufferSet, hfo], ?_, ?_⟩
+  · simp only [testBufferData]; exact List.take_left' hlen
+  · have hdec := decode_encode s v2 [] hok hwf (Or.inl rfl)
+    rw [List.append_nil] at hdec
+    simp only [testBufferOwned]
+    rw [List.take_left' hlen, hdec]
 
 end Unsized.C05
